@@ -57,7 +57,10 @@ def r11_1(ctx):
         initd = [st for st in free if isinstance(st, ast.Assign) and ast.unparse(st.value) == "stage.%s.T_init" % attr]
         ok = len(ini) == 1 and len(initd) == 1 and ast.unparse(ini[0].args[0]) == "stage.%s" % attr and ast.unparse(ini[0].args[1]) == ast.unparse(initd[0].targets[0]) \
             and bool(setc) and sc.order[initd[0]] < sc.order[setc[0]] < sc.order[ini[0]]
-        ctx.check(ok, "free %s starts from the declared guess" % which, detail="guess of the horizon variable", expected="init = stage.%s.T_init (read before promotion); stage.set_initial(stage.%s, init)" % (attr, attr),
+        if ok:
+            pk = [k for k in ini[0].keywords if k.arg == "priority"]
+            ok = not pk or (isinstance(pk[0].value, ast.Constant) and pk[0].value.value is True)
+        ctx.check(ok, "free %s starts from the declared guess" % which, detail="guess of the horizon variable (applied with priority, so that a user's own guess for the horizon overrides it)", expected="init = stage.%s.T_init (read before promotion); stage.set_initial(stage.%s, init)" % (attr, attr),
                   found="; ".join(ast.unparse(c) for c in ini), fi=f)
         rets_free = [ast.unparse(r.value) for st in free for r in ast.walk(st) if isinstance(r, ast.Return)]
         rets_fixed = [ast.unparse(r.value) for st in fixed for r in ast.walk(st) if isinstance(r, ast.Return)]
@@ -170,3 +173,9 @@ def r11_5(ctx):
         ctx.check(ok, "Stage.%s stores the declaration" % name, detail="horizon declaration", expected="self.%s = %s" % (attr, f.params[1]), found="; ".join(ast.unparse(w) for w in ws), fi=f)
     from .c06 import check_coupling
     check_coupling(ctx, only_localisable=True)
+
+
+@rule("R11.6", min_instances=5, desc="starting values of the localised grid variables follow from the guessed t0 and T through the method's own grid (shared with C10)")
+def r11_6(ctx):
+    from .c10 import r10_2
+    r10_2(ctx)
